@@ -141,3 +141,68 @@ vproof!(c13_keyid_from_fingerprint, 10, {
     let b6 = fp6.as_bytes();
     assert!(b4[0] == f4[0] && b4[19] == f4[19] && b6[0] == f6[0] && b6[31] == f6[31]);
 });
+
+/// recipient matching of PKESK packets against a key's identifiers: v3 by key id (all-zero = wildcard),
+/// v6 by fingerprint (absent = wildcard); other versions never match
+#[derive(Debug)]
+struct IdKey {
+    kid: KeyId,
+    fp: Fingerprint,
+    pp: PublicParams,
+}
+impl KeyDetails for IdKey {
+    fn version(&self) -> KeyVersion {
+        KeyVersion::V4
+    }
+    fn legacy_key_id(&self) -> KeyId {
+        self.kid
+    }
+    fn fingerprint(&self) -> Fingerprint {
+        self.fp.clone()
+    }
+    fn algorithm(&self) -> PublicKeyAlgorithm {
+        PublicKeyAlgorithm::Private100
+    }
+    fn created_at(&self) -> Timestamp {
+        Timestamp::from_secs(0)
+    }
+    fn legacy_v3_expiration_days(&self) -> Option<u16> {
+        None
+    }
+    fn public_params(&self) -> &PublicParams {
+        &self.pp
+    }
+}
+vproof!(c13_pkesk_match_v3, 12, {
+    use crate::packet::PublicKeyEncryptedSessionKey as Pkesk;
+    let pid: [u8; 8] = kani::any();
+    let kid: [u8; 8] = kani::any();
+    let key = core::mem::ManuallyDrop::new(IdKey { kid: KeyId::new(kid), fp: Fingerprint::V4([3; 20]), pp: PublicParams::Unknown { data: Bytes::new() } });
+    let p = core::mem::ManuallyDrop::new(Pkesk::Other { packet_header: PacketHeader::new_fixed(Tag::PublicKeyEncryptedSessionKey, 0), version: 9, data: Bytes::new() });
+    assert!(!p.match_identity(&*key), "C18/C13: PKESK of unknown version matched a key");
+    let p3 = core::mem::ManuallyDrop::new(Pkesk::V3 {
+        packet_header: PacketHeader::new_fixed(Tag::PublicKeyEncryptedSessionKey, 0),
+        id: KeyId::new(pid),
+        pk_algo: PublicKeyAlgorithm::Private100,
+        values: crate::types::PkeskBytes::Other { key: Bytes::new() },
+    });
+    let wildcard = pid == [0u8; 8];
+    let same = pid == kid;
+    kani::cover!(wildcard && !same, "anonymous recipient");
+    kani::cover!(same && !wildcard);
+    assert!(p3.match_identity(&*key) == (wildcard || same), "C18/C13: v3 PKESK recipient matching (key id or wildcard)");
+});
+vproof!(c13_pkesk_match_v6, 36, {
+    use crate::packet::PublicKeyEncryptedSessionKey as Pkesk;
+    let pf: [u8; 32] = kani::any();
+    let kf: [u8; 32] = kani::any();
+    let anon: bool = kani::any();
+    let key = core::mem::ManuallyDrop::new(IdKey { kid: KeyId::new([1; 8]), fp: Fingerprint::V6(kf), pp: PublicParams::Unknown { data: Bytes::new() } });
+    let p6 = core::mem::ManuallyDrop::new(Pkesk::V6 {
+        packet_header: PacketHeader::new_fixed(Tag::PublicKeyEncryptedSessionKey, 0),
+        fingerprint: if anon { None } else { Some(Fingerprint::V6(pf)) },
+        pk_algo: PublicKeyAlgorithm::Private100,
+        values: crate::types::PkeskBytes::Other { key: Bytes::new() },
+    });
+    assert!(p6.match_identity(&*key) == (anon || pf == kf), "C18/C13: v6 PKESK recipient matching (fingerprint or absent)");
+});
